@@ -370,6 +370,96 @@ def decoder_correspondence(P, rng, n):
     return len(expect), bad
 
 
+# ---- the whole compiler: model (driver command `compile`: model engine on the reader's table + model of the visitors,
+# Abnf/CompileTree.lean) against Rule.create on the same rule text
+
+def fold_ascii(s):
+    return "".join(chr(ord(c) + 32) if "A" <= c <= "Z" else c for c in s)
+
+
+def cdump(P, p):
+    if isinstance(p, P.Rule):
+        return "(ref" + "".join(" %d" % ord(c) for c in fold_ascii(p.name)) + ")"
+    if isinstance(p, P.Alternation):
+        return "(alt" + "".join(" " + cdump(P, q) for q in p.parsers) + ")"
+    if isinstance(p, P.Concatenation):
+        return "(cat" + "".join(" " + cdump(P, q) for q in p.parsers) + ")"
+    if isinstance(p, P.Option):
+        return "(opt " + cdump(P, p.alternation) + ")"
+    if isinstance(p, P.Repetition):
+        return "(rep %d %s %s)" % (p.repeat.min, "-" if p.repeat.max is None else p.repeat.max, cdump(P, p.element))
+    if isinstance(p, P.Literal):
+        if isinstance(p.value, tuple):
+            return "(range %d %d)" % (ord(p.value[0]), ord(p.value[1]))
+        return "(lit %d%s)" % (1 if p.case_sensitive else 0, "".join(" %d" % ord(c) for c in p.value))
+    if isinstance(p, P.Prose):
+        return "(prose)"
+    return "(unknown %s)" % type(p).__name__
+
+
+HAND_TEXTS = ['a = %x110000', 'a = %d1114112', 'a = "x" b', 'a', 'a = ', 'a =/ <b> <9x> < >', 'a = 1*2( b / "c" ) [ d ]\r\n', 'a = "x"\r\nb = "y"',
+              'A-b = %b1.10-11', 'a = %x41-5A.30', 'a = 0"x" 00*01"y"', 'a = ("b")', 'a = [ ( "b" ) ]', 'a = <b-1> / <b_1>', 'a = %s"" %i"Q" "q"',
+              'a = "x" ; c\r\n  / "y"', 'a = 1*\r\n "x"', 'a=b', 'a= b', '1a = b', 'a = b /', 'a = ( b', 'a = %x', 'a = %d65-', 'a = *', 'a = "x', "a\t=\t%x41\t"]
+
+
+def real_create(P, text):
+    """`Rule.create(text)` in a fresh class; for `=/` the rule is pre-defined with a marker so that the NEW alternative
+    can be read off the result.  Returns the canonical string the model prints."""
+    cls = type("C04c", (P.Rule,), {})
+    head = text.split('"')[0].split("<")[0]
+    nm = head.split("=")[0].split(";")[0].strip()
+    try:
+        if "=/" in head and nm:
+            try:
+                cls(nm, P.Literal("\x00MARK"))
+            except Exception:  # noqa
+                pass
+        rule = cls.create(text)
+        d = rule.definition
+        inc = False
+        if isinstance(d, P.Alternation) and len(d.parsers) == 2 and isinstance(d.parsers[0], P.Literal) and d.parsers[0].value == "\x00MARK":
+            d = d.parsers[1]
+            inc = True
+        return "ok" + "".join(" %d" % ord(c) for c in nm) + " | " + ("=/" if inc else "=") + " | " + cdump(P, d)
+    except P.ParseError:
+        return "ParseError"
+    except P.GrammarError:
+        return "gerr"
+    except Exception as ex:  # noqa
+        return "exc " + type(ex).__name__
+
+
+def compile_correspondence(P, rng, ncases):
+    """returns (number of texts, outcome kinds, disagreements [(text, model, code)])"""
+    enc = lib.Encoder(P, [P.ABNFGrammarRule("rule")])
+    glines = enc.grammar_lines()
+    texts = list(HAND_TEXTS)
+    for k in range(ncases):
+        rules, _expected = gen_case(rng)
+        r = Render(rng, plain=(k % 3 == 0))
+        for nm, op, a in rules:
+            t = r.rule(nm, op, a)
+            texts.append(t)
+            if k % 5 == 0 and t:
+                # a corrupted variant: most are rejected, some still compile to something else
+                pos = rng.randrange(len(t))
+                texts.append(t[:pos] + rng.choice(['"', "%", "(", ")", "[", "*", "=", "/", "<", ">", "-", ".", " ", "\r\n", ""]) + t[pos + 1:])
+    blocks = []
+    per = 25
+    for k in range(0, len(texts), per):
+        blocks.append(list(glines) + ["compile 0" + "".join(" %d" % ord(c) for c in t) for t in texts[k:k + per]])
+    outs = lib.run_driver_parallel(blocks)
+    model = [o for block in outs for o in block[1:]]
+    kinds = {}
+    bad = []
+    for t, m in zip(texts, model):
+        c = real_create(P, t)
+        kinds[c.split(" ")[0] + (" " + c.split(" ")[1] if c.startswith("exc") else "")] = kinds.get(c.split(" ")[0] + (" " + c.split(" ")[1] if c.startswith("exc") else ""), 0) + 1
+        if c != m:
+            bad.append((t, m, c))
+    return len(texts), kinds, bad
+
+
 def _chunk(args):
     seed, n = args
     P = lib.import_repo()
@@ -431,6 +521,14 @@ def run(ctx):
         rep += 1
         ctx.report("decoder %s on %r: implementation %r, model %r" % (k, t, g, m), {"kind": "decoder", "decoder": k, "text": t, "implementation": g, "model": m},
                    key="decoder:%s:%s" % (k, t))
+    ncomp, ckinds, cbad = compile_correspondence(P, rng, ctx.budget(120, 2500))
+    evals += ncomp
+    ctx.corr_samples = [{"text": t, "model": m[:400], "code": c[:400]} for t, m, c in cbad[:5]]
+    ctx.coverage["compiler_model_correspondence"] = {
+        "texts": ncomp, "outcomes_of_the_real_code": ckinds, "disagreements": len(cbad),
+        "compared": "Rule.create(text) in a fresh class vs the Lean model of the whole compiler (model engine on the reader's table sent over the wire, "
+                    "then the model of ABNFGrammarNodeVisitor / CharValNodeVisitor / NumValVisitor): rule name, operator, full structure of the "
+                    "definition, or the exception class; generated rule texts with random layout, corrupted variants, hand-picked boundary texts"}
     n = ctx.budget(160, 3000)
     chunks = 32
     import multiprocessing as mp
@@ -456,11 +554,20 @@ def run(ctx):
                 "distinct = distinct rendered texts; every rendering contains at least one repeat/num-val/char-val/group to decode",
         "samples": samples, "failure_kinds": fails, "routes": ROUTES, "decoder_cases": ndec, "decoder_disagreements": len(decbad),
     })
-    cc.conclude(ctx, 0, found)
+    cc.conclude(ctx, len(cbad), found)
 
 
 def replay(rp):
     P = lib.import_repo()
+    if rp.get("broken") == "correspondence":
+        enc = lib.Encoder(P, [P.ABNFGrammarRule("rule")])
+        bad = 0
+        for smp in rp.get("first_disagreements", []):
+            out = lib.run_driver(list(enc.grammar_lines()) + ["compile 0" + "".join(" %d" % ord(c) for c in smp["text"])])
+            c = real_create(P, smp["text"])
+            print(repr(smp["text"]), "\n  model:", out[-1][:300], "\n  code :", c[:300])
+            bad += out[-1] != c
+        return 1 if bad else 0
     try:
         cls = compile_route(P, rp["route"], rp["texts"])
     except Exception as e:  # noqa
